@@ -103,8 +103,14 @@ fn band_norms(points: &[&[f64]], lift: bool) -> (f64, f64) {
 
 /// Decide whether an exact determinant (integer `d` at scale 2^(min_e*deg)) is outside the band.
 fn decidable(d: &Big, min_e: i32, deg: i32, norms: (f64, f64)) -> bool {
+    let (log_a0, log_h0) = norms;
     if d.is_zero() {
-        return true;
+        // An exactly zero determinant is reported as degenerate by the library only when the
+        // rounding error of its floating-point evaluation stays below its dead band
+        // (1e-12 * (1 + ||A||inf)); with a large Hadamard bound the computed value can land on
+        // either side, so the instance is outside what the properties promise.
+        let a_inf = if log_a0.is_finite() { log_a0.exp2() } else { 0.0 };
+        return log_h0 + log2_f(4e-15) < log2_f(1e-12 * (1.0 + a_inf));
     }
     let log_det = d.log2_abs() + f64::from(min_e) * f64::from(deg);
     let (log_a, log_h) = norms;
@@ -306,5 +312,21 @@ mod tests {
         assert!(!in_closed_simplex(&r(&t), &[3.0, 3.0]).0);
         assert!(dist_sq_lt(&[0.0, 0.0], &[5e-11, 0.0], 1e-10));
         assert!(!dist_sq_lt(&[0.0, 0.0], &[1e-10, 0.0], 1e-10));
+    }
+}
+
+#[cfg(test)]
+mod regress {
+    use super::*;
+    #[test]
+    fn c08_case() {
+        let s: Vec<Vec<f64>> = vec![vec![3.0, 3.0, 1.0], vec![3.0, 1.0, 2.0], vec![1.0, 1.0, 1.0], vec![3.0, 2.0, 2.0]];
+        let r: Vec<&[f64]> = s.iter().map(Vec::as_slice).collect();
+        let q = [3.0, 1.0, 1.0];
+        let o = orient(&r);
+        let i = insphere(&r, &q);
+        eprintln!("orient {o:?} insphere {i:?}");
+        assert_eq!(i.sign, 1);
+        assert!(i.decidable);
     }
 }
